@@ -487,6 +487,10 @@ func (c *Cache) copyFile(file io.ReadSeeker, out OutputID, size int64) error {
 			var out2 OutputID
 			h.Sum(out2[:0])
 			if out == out2 {
+				// The existing file becomes the output of the entry being
+				// stored: count that as a use, so that the next Trim does not
+				// remove it from under the new entry because of its old mtime.
+				c.used(name)
 				return nil
 			}
 		}
